@@ -120,6 +120,55 @@ def run_solve_paths(mutate=None):
     return r
 
 
+def run_device_init(mutate=None):
+    """invalid device definitions are rejected by the REAL Device.__init__ (polygons stubbed): unnamed or duplicate terminals, duplicate hole
+    names, an invalid film or hole polygon, probe points of the wrong shape or outside the film; a valid definition is accepted"""
+    D_ = "tdgl.device.device"
+    mut = [(o, n) for (m, o, n) in (mutate or []) if m == D_]
+    L = instrument.load(D_, mutate=mut, vc=vcm.VC())
+
+    def body():
+        import numpy as np
+        Device = L["Device"]
+
+        class Poly:
+            def __init__(self, name, valid=True, inside=True):
+                self.name, self.is_valid, self.inside, self.mesh = name, valid, inside, True
+
+            def contains_points(self, pts, index=False, radius=0):
+                return np.full(len(np.atleast_2d(pts)), self.inside)
+
+            def __repr__(self):
+                return f"Poly({self.name!r})"
+        layer = object()
+        ok_kw = lambda: dict(layer=layer, film=Poly("film"), holes=[Poly("h1", inside=False), Poly("h2", inside=False)], terminals=[Poly("src"), Poly("drn")],
+                             probe_points=[(0.0, 0.0), (1.0, 0.0)])
+        cases = {
+            "valid definition": (ok_kw(), False),
+            "no holes, terminals or probes": (dict(layer=layer, film=Poly("film")), False),
+            "unnamed terminal": (dict(ok_kw(), terminals=[Poly("src"), Poly(None)]), True),
+            "only terminal unnamed": (dict(ok_kw(), terminals=[Poly(None)]), True),
+            "duplicate terminal names": (dict(ok_kw(), terminals=[Poly("src"), Poly("src")]), True),
+            "duplicate hole names": (dict(ok_kw(), holes=[Poly("h", inside=False), Poly("h", inside=False)]), True),
+            "probe point inside a hole": (dict(ok_kw(), holes=[Poly("h1", inside=True)]), True),
+            "invalid film polygon": (dict(ok_kw(), film=Poly("film", valid=False)), True),
+            "invalid hole polygon": (dict(ok_kw(), holes=[Poly("h1", inside=False), Poly("h2", valid=False, inside=False)]), True),
+            "probe point outside the film": (dict(ok_kw(), film=Poly("film", inside=False)), True),
+            "probe points of the wrong shape": (dict(ok_kw(), probe_points=[(0.0, 0.0, 1.0), (1.0, 0.0, 2.0)]), True),
+        }
+        for tag, (kw, must_reject) in cases.items():
+            try:
+                d = Device("dev", **kw)
+                rejected = False
+            except ValueError:
+                rejected = True
+            check(f"C19.device_definition.{'rejected' if must_reject else 'accepted'}[{tag}]", z3.BoolVal(rejected is must_reject))
+            if not must_reject and not rejected:
+                check(f"C19.device_definition.terminals_are_not_meshed[{tag}]", z3.BoolVal(all(t.mesh is False for t in d.terminals)))
+    obls, n = explore(body)
+    return dict(obls=obls, paths=n, sources=[L.info()], consistent=True)
+
+
 SOL_ = "tdgl.solution.solution"
 
 
@@ -159,6 +208,7 @@ def units():
             Unit("SolverOptions.validate", O_ + ":SolverOptions.validate", run_validate, props=["C19"], timeout=300),
             Unit("TDGLSolver.solve[paths]", "tdgl.solver.solver:TDGLSolver.solve", run_solve_paths, props=["C19"], timeout=300),
             Unit("Device.__eq__", "tdgl.device.device:Device.__eq__", run_device_eq, props=["C19"], timeout=300),
+            Unit("Device.__init__[rejections]", "tdgl.device.device:Device.__init__", run_device_init, props=["C19"], timeout=300),
             Unit("Solution.__init__[device snapshot]", SOL_ + ":Solution.__init__", run_solution_snapshot, props=["C19"], timeout=300)]
 
 
